@@ -297,6 +297,8 @@ def build_in_process(root: str, sources: list[tuple[str, str]], opts_kw: dict[st
             if not any(x.startswith("--python-version") for x in nosrc):
                 _o.python_version = (3, 12)
             _o.hide_error_codes = "--show-error-codes" not in nosrc
+            for k, v in (opts_kw.pop("post_set", None) or {}).items():
+                setattr(_o, k, v)
             opts_kw = {"_prebuilt": _o}
         alt_lib = opts_kw.pop("alt_lib", root)
         real_typeshed = opts_kw.pop("real_typeshed", False)
